@@ -137,7 +137,7 @@ def gen_field_cases(rng, fd, level, lifted=False):
             seq.append(('tobits', rng.choice(elems), lpart))
             seq.append(('tobits', q - 1, lpart))
     mixed = [(rng.choice(elems), rng.choice(elems)) for _ in range((2, 4, 12)[level])]
-    if fd[0] == 'P' and q < 2**32 and not lifted:   # public ints outside range(q) (lifted types: see report, int*a with int >= q fails)
+    if fd[0] == 'P' and q < 2**32:   # public ints outside range(q), also for lifted types (repo fix 293218b: a * 5 over lifted GF(3))
         mixed = [(a, b + q * rng.choice([-2, -1, 0, 1, 3])) for a, b in mixed]
     return {'pairs': pairs, 'neq': neq, 'pows': pows, 'seq': seq, 'mixed': mixed}
 
